@@ -85,8 +85,11 @@ def dates_exhaustive():
     return n, badd
 
 
+DEFAULT_BUDGET = {'quick': 300, 'thorough': 6000}
+
+
 def run(props, tier, seed, budget=None):
-    cov, findings = generic_run('csvio', run_case, props, seed, budget or (300 if tier == 'quick' else 6000),
+    cov, findings = generic_run('csvio', run_case, props, seed, budget or DEFAULT_BUDGET[tier],
                                 'seeded random WBS (1-6 tasks, ids incl. 0 and negatives, adversarial strings with delimiter/quotes/CR/LF/BOM, sparse custom attributes, fractional estimates) written, read, written again; plus fixed hand-written files; distinct by input',
                                 lambda d: d if len(d['wbs']) > 1 else None)
     for c, d in handwritten():
